@@ -75,8 +75,7 @@ def cbf_union(ctx, cfg):
     ctx.check(ctx.all_eq(env.cells(u._bloom), env.cells(single._bloom)), "cbf-union-is-single-stream")
     ctx.check(ctx.and_([ctx.ge(u.check_alt(H[q]), TA[q] + TB[q]) for q in range(K)]), "cbf-union-est>=sum")
     # the result hashes keys with the operands' strategy (round 5: a result rebuilt through frombytes() fell back to the default)
-    ctx.check(u.hashes("some key") == a.hashes("some key") and ctx.fork(ctx.eq(u.check("some key"), u.check_alt(a.hashes("some key")))),
-              "cbf-union-keeps-strategy")
+    ctx.check(u.hashes("some key") == a.hashes("some key") and u.hashes("other", 1) == a.hashes("other", 1), "cbf-union-keeps-strategy")
     ctx.check(ctx.and_(ctx.all_eq(pa, env.cells(a._bloom)), ctx.all_eq(pb, env.cells(b._bloom))), "operands-unchanged")
 
 
